@@ -24,6 +24,23 @@ SCALES = [
 ]
 
 
+def scale_of(magdict):
+    """A scale node payload (magdict, C++ expression) for an arbitrary exponent dictionary {"p<prime>"|"pi": Fraction}."""
+    parts = []
+    md = {}
+    for b, e in sorted(magdict.items()):
+        e = Fraction(e)
+        if e == 0:
+            continue
+        md[b] = e if e.denominator != 1 else int(e)
+        base = "au::Magnitude<au::Pi>{}" if b == "pi" else f"au::mag<{int(b[1:])}>()"
+        x = base if e.numerator == 1 else f"au::pow<{e.numerator}>({base})"
+        if e.denominator != 1:
+            x = f"au::root<{e.denominator}>({x})"
+        parts.append(x)
+    return (md, "(" + " * ".join(parts) + ")" if parts else "au::ONE")
+
+
 class Atoms:
     """The atom universe of one run: library units, prefixed units; (dim, mag) from the dumper."""
 
